@@ -50,6 +50,14 @@ CHECKS = {
    "breadth-first search over edit sequences applied to real alignment.Seq / alignment.QSeq / multi.Multi containers, grid reference model compared through row view, both column views, extents and count consensus after every edit; retained clones checked for independence; caller buffers overwritten after each append",
    "Initial grids 1..3 x 1..3 (Multi: every layout of 1..2 rows, thorough 3, offsets 0..2), every edit sequence of depth <=3 (thorough 4) over 16 edits (AppendColumns, AppendEach with unequal runs, Delete, Add, Flush at either end, Truncate, Subseq, Clone, Set).",
    "Column-stored alignments at offset 0; QSeq.Column compared only at or above the quality threshold; row names of a Subseq result not constrained."),
+ "C01": (E3, "exploration", "DESIGN.md §3 C01",
+   "bounded-exhaustive enumeration of record lists x writer configurations x reader feeding modes on the real FASTA/FASTQ writers and readers, field-wise comparison and byte counts",
+   "Every letter string up to length 3 (thorough 4) with 36 name/description shapes (incl. '>', '@', '+'), all pairs of a reduced record set, boundary lengths 4095..12289 and header lines longer than the 4096-byte buffer; FASTA widths 1..10000 x Seq/QSeq x DNA/protein; FASTQ x QID x 5 Phred-offset encodings x quality vectors over 4 edge scores; readers fed whole, byte by byte and with data+EOF.",
+   "Names without whitespace, trimmed single-line descriptions, offset-0 sequences; Illumina1_5 from score 2."),
+ "C02": (E3, "exploration", "DESIGN.md §3 C02",
+   "bounded-exhaustive enumeration of BED records x type x every narrower write width and of GFF features/regions/inline sequences x header on/off on the real writers and readers, field-wise comparison, 1-based text columns, byte counts",
+   "Product of edge values for every BED field (incl. MinInt64/MaxInt64, negative scores, all strands, zero/opaque colours, 1..3 blocks) for types 3/4/5/6/12 at every width <= type; GFF product over names with inner spaces, starts {0,1,9,-3}, lengths {1,5,2^40}, scores {nil,0,-1.5,0.1,1e-300,MaxFloat64,+-Inf}, strands, frames, attribute lists (digits and underscores in tags, quoted and empty values), comments; sequence-region lines; inline DNA/RNA/protein sequences at widths 1,2,60; mixed files.",
+   "Well-formed fields as the statement defines them; nil == empty attribute list; NaN scores excluded."),
 }
 PENDING = {}  # id -> reason, for properties not (yet) claimed
 
